@@ -167,10 +167,12 @@ Ltac fin2 :=
 Ltac to_loop := repeat first [ timeout 20 xstep | progress class_vals | progress cbn [set_add_all out_map out_bind] | progress cbv beta iota ].
 
 
-Ltac rhs_open :=
+(* the model's side opened up to the assertion on the parsed collection (parsed_items / parsed_pairs kept folded) *)
+Ltac rhs_open_keep :=
   unfold finish_set, finish_list, finish_array, finish_pairs, source_values, source_pairs, array_from_source;
-  cbn [s_size s_has_size s_values s_seq s_text s_parsed s_coll s_assocs s_map s_aseq has_text nonempty parsed_items parsed_pairs get_list];
+  cbn [s_size s_has_size s_values s_seq s_text s_parsed s_coll s_assocs s_map s_aseq has_text nonempty get_list];
   class_vals.
+Ltac rhs_open := rhs_open_keep; cbn [parsed_items parsed_pairs]; class_vals.
 Ltac kill_stuck :=
   change (ranker 0%nat) with rk_default in *;
   repeat (class_vals;
